@@ -86,6 +86,7 @@ pub fn prop() -> HistProp {
             w.rewire = 2;
             w.vcfg = 1;
             w.setopen = 1;
+            w.intruder = 2;
             w
         },
         min_ops: 4,
